@@ -18,7 +18,7 @@ hand to qryn's own code, including the ill-shaped cases (absent messages, wrong 
 arrays, wrong id lengths, truncated input = `bad` markers at the place where the parser reports an error).
 `Fixes` selects, per defect, the pinned code or the code after the `fix:` commit; `ingest` is the fixed
 code, `ingestWith pinned` the code as it was. Core-only. -/
-namespace Qryn.Ingest
+namespace Qryn.IngestFaults
 
 inductive Fault | indexOutOfRange | nilDeref | badSize | typeAssert | divByZero
   deriving DecidableEq, Repr
@@ -879,4 +879,4 @@ def stalePlacements : List (String × String) :=
     | some p => if p.2 == hsh then none else some (k, g)
     | none => some (k, g))
 
-end Qryn.Ingest
+end Qryn.IngestFaults
